@@ -1,31 +1,34 @@
 """C02 — far-field propagation puts the Fraunhofer field on the right output samples.
 
-Tie: Gen/Window.lean (window block of propagate_dft, _mask_shape, _mask_shift) and Gen/Extent.lean are regenerated from
-the repository (translator); Model/Propagate.lean + Model/Fourier.lean (dft2 call, alpha, Wavefront.field) are hand
-models run at Float and compared here with the real `lentil.propagate_dft` (placement exactly, values to 1e-9 relative).
+Tie: Gen/Window.lean (window block of propagate_dft, _mask_shape, _mask_shift), Gen/PropagateMeta.lean (alpha, dft2 call
+arguments, metadata), Gen/Extent.lean and Gen/Util.lean (boundary) are regenerated from the repository (translator);
+Model/Propagate.lean + Model/Fourier.lean (np.fix split, Wavefront.field) are hand models run at Float and compared here with the real `lentil.propagate_dft` (placement exactly, values to 1e-9 relative).
 Oracle: direct Fraunhofer double sum per output sample in np.longdouble on the real result, exact zeros outside the
 evaluated window, metadata."""
 import numpy as np
 from harness.common import *
 import vlib
 
-LEVEL_TEXT = ('Lean 4 theorems, for all input fields/offsets, samplings, integer splits of the tilt shift, output extents (whole array or '
+LEVEL_TEXT = ('Lean 4 theorems, for all input fields/offsets, samplings, tilt shifts, output extents (whole array or '
               'mask box), propagation shapes and oversampling factors: Wavefront.field[i][j] of the propagated wavefront equals the sum over '
-              'the input fields whose window out_extent ∩ prop_extent contains the sample of sqrt|ar ac| Σ f(x,y) exp(-2πi(ar X (g-s) + ac Y (g-s))) '
-              '(stated at C/R by composing with C01 dft2_eq_defining_sum) with alpha = dx·du/(λ z os) per axis, and exactly zero elsewhere; '
+              'the input fields whose window out_extent ∩ prop_extent contains the sample of sqrt|ar ac| Σ f(x,y) exp(-2πi(ar X (g-s_f) + ac Y (g-s_f))) '
+              'with s_f that field\'s own shift (propagateDft_sample_fraunhofer, stated at C/R by composing with C01 dft2_eq_defining_sum; '
+              'this per-field sum IS the general statement when shifts differ) with alpha = dx·du/(λ z os) per axis, and exactly zero elsewhere; '
               'shape/prop_shape/mask only select samples; oversampling only divides alpha and multiplies the grid; wavelength, focal length, '
-              'du/oversample and the flipped plane type are carried. Window arithmetic, _dft_alpha, its call site, shape·oversample and the '
-              'metadata hand-over and every argument of the dft2 call and of the output Field are regenerated from propagate.py/extent.py/field.py '
-              'on every run; np.fix is observed: the code\'s own fix/sub split is read off its array_extent/dft2 calls, a case whose split cannot be '
-              'observed, does not add up to the field\'s shift or has |sub| >= 1 breaks the correspondence. For a common shift the sum over fields is '
+              'du/oversample and the flipped plane type are carried. The integer/fractional split of the shift is derived: the model takes the real '
+              'shift, splits it with trunc (np.fix) and fix_split_spec proves |sub| < 1, sub has the sign of the shift and fix+sub = shift, '
+              'propagateField_sample_shift states the sample formula in terms of the shift itself. The mask box is computed by the model from the mask '
+              'values with C20\'s boundary (mask_extent_is_support_bbox: it is the bounding box of the non-zero samples). Window arithmetic, '
+              '_dft_alpha, its call site, shape·oversample, the metadata hand-over and every argument of the dft2 call and of the output Field are '
+              'regenerated from propagate.py/extent.py/field.py on every run (boundary from util.py). The model\'s split and mask box are compared with '
+              'the ones read off the code\'s own array_extent/dft2 calls. For a common shift the sum over fields is '
               'the Fraunhofer sum of Wavefront.field of the input (propagateDft_common_shift).')
-LEVEL_NOTE = ('Partial: when fields carry different shifts the result stays a sum of per-field Fraunhofer sums (each with its own window); '
-              'lentil.boundary (mask bounding box), the shape/prop_shape defaults and the mask/no-mask choice of out_extent enter as parameters of the '
-              'hand model (differential only); the window centre is any integer within one sample of the shift (np.fix itself is not modelled; '
-              'oversample also scales the shift, which is C04\'s Field.shift). '
-              'Trusted: Lean kernel, py2lean subset semantics, NumPy dot/exp/broadcast as modelled, generator coverage.')
+LEVEL_NOTE = ('Partial: trunc on floats enters as the class operation TruncLike.trunc (Float truncation in the driver, floor/ceil by sign at R; '
+              'tied by the differential check of the split); the shape/prop_shape defaults and the mask/no-mask choice of out_extent are parameters of the '
+              'hand model (differential only); oversample also scales the shift, which is C04\'s Field.shift. '
+              'Trusted: Lean kernel, py2lean subset semantics, NumPy dot/exp/broadcast/fix as modelled, generator coverage.')
 TECHNIQUE = 'Lean 4 proof (omega + ring) over translator-regenerated window kernel + Float model with differential correspondence'
-GEN = ['Extent', 'FieldIdx', 'Window', 'PropagateMeta', 'PlaneType']
+GEN = ['Extent', 'FieldIdx', 'Window', 'PropagateMeta', 'PlaneType', 'Util', 'Helper', 'Helper20', 'Hex', 'Mesh']
 OPS = ['C02']
 RULE = ('cases: pupils 1..6 x 1..6 (even/odd/non-square, off-centre support, 1..3 segments) with dyadic amplitude and OPD, '
         'alpha per axis in [0.02,0.35] (scalar or per-axis dx/du), oversample 1..3, output shape None/int/pair, prop_shape <= shape, '
@@ -35,9 +38,9 @@ RULE = ('cases: pupils 1..6 x 1..6 (even/odd/non-square, off-centre support, 1..
         ' Extremes stream (5% of quick, 240 cases in search/thorough): every length scaled by 1e-9..1e3, per-axis pixel scales differing by a relative 1e-5..5e-3 only, large (64..100) critically sampled pupils with an odd dimension (oracle only).')
 TRUSTED = ['np.dot(E1.dot(f), E2), np.exp, np.outer, np.fix, np.broadcast_to as modelled in Model/Fourier.lean and Model/Propagate.lean',
            'lentil.fourier.dft2 = Model dft2 (checked by C01); lentil.field.insert = Model insertArr (checked by C06)']
-UNPROVEN = ['lentil.boundary(mask) = bounding rows/cols of the support, shape/prop_shape defaults, mask/no-mask branch: parameters of the model, differential only',
-            'np.fix: the theorem holds for every integer split; that the code picks trunc(shift) is observed, not proved']
-ASSUMPTIONS = ['shape >= 1, prop_shape >= 1, non-empty mask; the shift split fix+sub is arbitrary in the theorem (np.fix in the code)',
+UNPROVEN = ['shape/prop_shape defaults and the mask/no-mask branch: parameters of the model, differential only',
+            'np.fix on IEEE doubles = TruncLike.trunc: class operation, tied by the differential comparison of the split']
+ASSUMPTIONS = ['shape >= 1, prop_shape >= 1, non-empty mask',
                'generated tilt shifts keep a fractional part in [0.05,0.95] so that np.fix is insensitive to rounding']
 
 WL, Z = 5e-7, 8.0
@@ -328,7 +331,8 @@ def _mask_box(stage):
     return [int(rows[0]), int(rows[-1]), int(cols[0]), int(cols[-1])]
 
 def _bits_field(f):
-    return {'shape': f['shape'], 'off': f['off'], 're': vlib.fl(f['re']), 'im': vlib.fl(f['im']), 'fix': f['fix'], 'sub': vlib.fl(f['sub'])}
+    # the model splits the field's shift itself (np.fix model); the code's own split is compared with it in `compare`
+    return {'shape': f['shape'], 'off': f['off'], 're': vlib.fl(f['re']), 'im': vlib.fl(f['im']), 'shift': vlib.fl(f['shift'])}
 
 def requests(c, io):
     if c.get('nomodel'): return []
@@ -338,7 +342,8 @@ def requests(c, io):
     ps = sh if st['prop_shape'] is None else ([st['prop_shape']] * 2 if isinstance(st['prop_shape'], int) else st['prop_shape'])
     return [{'op': 'c02.propagate_dft', 'fields': [_bits_field(f) for f in inp['fields']],
              'dx': vlib.fl(inp['pixelscale']), 'du': vlib.fl(st['du']), 'wl': vlib.fbits(inp['wavelength']), 'z': vlib.fbits(inp['focal_length']),
-             'os': st['os'], 'shape': sh, 'prop_shape': ps, 'mask': _mask_box(st)}]
+             'os': st['os'], 'shape': sh, 'prop_shape': ps,
+             'mask_values': None if st['mask'] is None else {'shape': st['mask']['shape'], 'v': vlib.fl([float(b) for b in st['mask']['bits']])}}]
 
 def _arr(d):
     return (np.array(vlib.unfl(d['re'])) + 1j * np.array(vlib.unfl(d['im']))).reshape(d['shape'])
@@ -368,6 +373,12 @@ def compare(c, io, mo):
     m = mo[0]
     if 'exc' in io: return f"implementation raised {io['exc']}: {io.get('msg')} (model has no refusal here)"
     if not m.get('ok'): return f"model refused: {m.get('err')}"
+    # the split the model derives (np.fix of the field's shift) is the split the code used
+    for k, (f, sp) in enumerate(zip(io['in']['fields'], m['splits'])):
+        msub = vlib.unfl(sp[2:])
+        if list(sp[:2]) != f['fix'] or any(abs(a - b) > 1e-9 * (1 + abs(s_)) for a, b, s_ in zip(msub, f['sub'], f['shift'])):
+            return f"field {k}: the code split its shift {f['shift']} into {f['fix']} + {f['sub']}, np.fix gives {list(sp[:2])} + {msub}"
+    if m.get('mask_box') != _mask_box(c['stages'][-1]): return f"mask bounding box: model {m.get('mask_box')} vs support {_mask_box(c['stages'][-1])}"
     got = (np.array(io['out']['re']) + 1j * np.array(io['out']['im'])).reshape(io['out']['shape'])
     want = _arr(m['canvas'])
     if got.shape != want.shape: return f'Wavefront.field shape {got.shape} vs model {want.shape}'
